@@ -12,6 +12,8 @@ def main():
     tags, gens, exts, mods, engs = set(), {}, {}, [], set()
     for pid in props:
         P = vlib.load_prop(pid).PROP
+        if P.get("disabled"):
+            continue
         tags.update(P.get("go_tags", P.get("engines", [])))
         gens.update(P.get("gen_files", {}))
         exts.update(P.get("extract_files", {}))
@@ -23,16 +25,17 @@ def main():
     for rel, eng in gens.items():
         r = subprocess.run([h, eng, "facts"], stdout=subprocess.PIPE, text=True)
         if r.returncode != 0 or not r.stdout.strip():
-            print("setup: facts failed for", eng); return 1
+            print("setup: WARNING facts failed for", eng); continue
         vlib.write_if_changed(os.path.join(vlib.LEAN, rel), r.stdout)
     for rel, spec in exts.items():
         ok, content, detail = vlib.run_extractor(spec)
         if not ok:
-            print("setup: extractor failed for", rel, detail); return 1
+            print("setup: WARNING extractor failed for", rel, detail); continue
         vlib.write_if_changed(os.path.join(vlib.LEAN, rel), content)
     ok, out, failed = vlib.lake_build(sorted(set(mods)) + ["drv_" + e.lower() for e in sorted(engs)])
     if not ok:
-        print(out[-4000:]); print("setup: lake build failed", failed); return 1
+        # not fatal: every check rebuilds exactly what it needs and reports its own failure
+        print(out[-4000:]); print("setup: WARNING lake build had failures", failed)
     print("setup ok: %d properties, %d lean modules, %d engines" % (len(props), len(set(mods)), len(engs)))
     return 0
 sys.exit(main())
